@@ -276,6 +276,12 @@ func c01Run(c c01Case) []*core.Violation {
 	// evidence
 	shape := fmt.Sprintf("p%d/e%d/a%d", np, ne, na)
 	rec.Class("shape:" + gen.ExpectedShape(np, ne, na))
+	if c.Spec.Charset != "" {
+		rec.Class("message-charset:" + c.Spec.Charset)
+	}
+	for _, f := range append(append([]gen.FileSpec{}, c.Spec.Embeds...), c.Spec.Attachments...) {
+		rec.Class("source:" + f.Source)
+	}
 	nt := np+ne+na >= 2
 	for _, l := range b.Leaves {
 		rec.Class("cte:" + l.CTE)
@@ -297,7 +303,7 @@ func c01Opts() gen.GenOpts {
 	return gen.GenOpts{
 		Encodings: []string{"quoted-printable", "base64", "8bit"}, MaxParts: 4, MaxEmbeds: 3, MaxAttach: 3, AllowNoBody: true,
 		PartEncs: []string{"", "", "quoted-printable", "base64", "8bit"}, FileEncs: []string{"", "", "base64", "8bit", "quoted-printable"},
-		Descriptions: true, TextOnlyQP: true, Chunking: true, Boundaries: true,
+		Descriptions: true, TextOnlyQP: true, Chunking: true, Boundaries: true, MsgCharsets: true,
 	}
 }
 
